@@ -127,7 +127,7 @@ def sabotage(trace, rng):
 
 
 # ======================================================================= detectors (C09)
-def bracket(ref, ub, lb, sample_size, alpha, n_impl, seed, B=1500):
+def bracket(ref, ub, lb, sample_size, alpha, n_impl, seed, B=20000):
     """Independent estimate of the documented critical value: the (1 - alpha) quantile of the KL divergence
     between two samples of `sample_size` drawn from the reference leaf distribution; returned as the
     interval between the quantile levels that the implementation's own n_impl-sample order statistic can
@@ -274,13 +274,13 @@ def bursty_stream(rng, n, d, w):
 
 def stream_params(rng):
     w = rng.choice([5, 8, 12, 20])
-    return {"window_size": w, "persistence": rng.choice([0.0, 0.05, 0.2, 0.5, 1.0]), "alpha": rng.choice([0.01, 0.05, 0.2]),
+    return {"window_size": w, "persistence": rng.choice([0.0, 0.05, 0.2, 0.5, 1.0]), "alpha": rng.choice([0.01, 0.05, 0.2, 0.3, 0.5]),
             "bootstrap_samples": rng.choice([30, 60]), "count_ubound": rng.choice([1, 2, 4]),
             "lbnum": rng.choice([0, 1]), "lbden": rng.choice([4, 8])}
 
 
 def batch_params(rng):
-    return {"alpha": rng.choice([0.01, 0.05, 0.2]), "bootstrap_samples": rng.choice([30, 60]),
+    return {"alpha": rng.choice([0.01, 0.05, 0.2, 0.3, 0.5]), "bootstrap_samples": rng.choice([30, 60]),
             "count_ubound": rng.choice([2, 4, 8]), "lbnum": rng.choice([0, 1]), "lbden": rng.choice([4, 8])}
 
 
